@@ -228,6 +228,10 @@ pub struct RunScript {
     pub fs_write_stall: Option<String>,
     #[serde(default)]
     pub env_actions: Vec<EnvAction>,
+    /// FSFAULT_WRITE_FAIL coordinate "<class substring>:<k>": from the k-th write to a matching file below the
+    /// output directory on, every such write fails with ENOSPC (the disk has filled up)
+    #[serde(default)]
+    pub fs_write_fail: Option<String>,
     /// RLIMIT_NOFILE of the monorail process of this run (None = the world's / inherited)
     #[serde(default)]
     pub nofile: Option<u64>,
@@ -250,6 +254,7 @@ impl RunScript {
             lfaults: vec![],
             fs_write_stall: None,
             env_actions: vec![],
+            fs_write_fail: None,
             nofile: None,
         }
     }
@@ -372,6 +377,11 @@ pub fn drive_run_l(w: &mut World, actor: &str, sc: &RunScript, hang: Duration, l
         env.push(("LD_PRELOAD".into(), crate::world::shim_path().to_string_lossy().into_owned()));
         env.push(("FSFAULT_ROOT".into(), w.out_dir().to_string_lossy().into_owned()));
         env.push(("FSFAULT_WRITE_STALL".into(), st.clone()));
+    }
+    if let Some(wf) = &sc.fs_write_fail {
+        env.push(("LD_PRELOAD".into(), crate::world::shim_path().to_string_lossy().into_owned()));
+        env.push(("FSFAULT_ROOT".into(), w.out_dir().to_string_lossy().into_owned()));
+        env.push(("FSFAULT_WRITE_FAIL".into(), wf.clone()));
     }
     if sc.fs_crash.is_some() || sc.fs_log.is_some() {
         env.push(("LD_PRELOAD".into(), crate::world::shim_path().to_string_lossy().into_owned()));
